@@ -1201,6 +1201,35 @@ pub fn check_termination(run: &ImRun, out: &mut Outcome) {
     }
 }
 
+/// Without faults (no loss, no session loss, no restart, a prompt client) the device answers every
+/// read and subscribe request to the end: a report, or a status which refuses the request. A
+/// client that ran into a timeout was abandoned half-way.
+pub fn check_abandoned(run: &ImRun, out: &mut Outcome) {
+    use rs_matter::error::ErrorCode;
+    for (op, rec) in &run.ops {
+        let Some(step) = step_of(&run.cfg, *op) else {
+            continue;
+        };
+        if !matches!(step.op, CtlOp::Read { .. } | CtlOp::Subscribe { .. }) || step.fail_after_chunks.is_some() || step.status_delay_ms > 100 {
+            continue;
+        }
+        let Some(r) = rec.result else {
+            continue;
+        };
+        out.count("interactions_checked_for_completion", 1);
+        if r != OK && r != ErrorCode::Busy as u16 && r != ErrorCode::Invalid as u16 {
+            out.violate(
+                "answer-abandoned",
+                format!(
+                    "op {op} ({}): no fault was injected, yet the interaction ended with error code {r:#x} at the client after {} received messages (the device stopped answering)",
+                    if matches!(step.op, CtlOp::Read { .. }) { "read" } else { "subscribe" },
+                    rec.rx.len()
+                ),
+            );
+        }
+    }
+}
+
 pub fn common_counters(run: &ImRun, out: &mut Outcome) {
     for (k, v) in &run.fired {
         out.count(&format!("fault_{k}"), *v);
@@ -1362,6 +1391,9 @@ impl Scenario for StaticScenario {
         common_counters(&run, &mut out);
         check_reads(&run, &root, !self.knobs.dynamic, &mut out);
         check_termination(&run, &mut out);
+        if !self.knobs.faults && !self.knobs.sched && !self.knobs.dynamic {
+            check_abandoned(&run, &mut out);
+        }
         match self.which {
             Which::C06 => check_actions(&run, &root, &mut out),
             Which::C14 => check_sizes(&run, &mut out),
